@@ -12,7 +12,7 @@
    validator shares: check_C03 on implementation traces (partial). *)
 From Coq Require Import ZArith List Bool.
 From Alliance Require Import Num KMap Types Monad Model Step Spec Hoare WitnessLib.
-From Alliance.Witness Require Import F_C03_valshares.
+From Alliance.Witness Require Import F_C03_valshares F_C03_negative_total.
 From Alliance.Proofs Require Import SortedInv WellKeyed ShareLedger.
 Import ListNotations.
 Open Scope Z_scope.
@@ -34,6 +34,17 @@ Print Assumptions C03_step.
 Example C03_refuted_validator_shares : witness_fails 3 2 ops_F_C03_valshares = true.
 Proof. vm_compute. reflexivity. Qed.
 Print Assumptions C03_refuted_validator_shares.
+
+(* further on: "no share quantity is ever negative" fails for the asset's total of validator shares
+   (clause 33) and for the staked total itself (clause 32: the last holder exits with its reported
+   balance, which the 0.01 rounder rounds up to one unit more than the recorded total) — two
+   delegations, two slashes, every holder leaves; history executed on the real implementation.
+   Delegation shares and the validators' own share records stay non-negative on it (clause 3). *)
+Example C03_refuted_negative_total :
+  witness_fails 3 33 ops_F_C03_negative_total = true /\ witness_fails 3 32 ops_F_C03_negative_total = true /\
+  witness_fails 3 3 ops_F_C03_negative_total = false.
+Proof. vm_compute. repeat split; reflexivity. Qed.
+Print Assumptions C03_refuted_negative_total.
 
 (* structural invariants of every reachable state: every map is strictly sorted by key — no
    delegation / validator / asset record exists twice — and every asset sits under its denom *)
